@@ -72,6 +72,8 @@ class Mismatch:
     def key(self, pid=PID):
         cls = self.exp.cls if self.exp is not None else ''
         name = self.op.name
+        if self.direction.startswith('userdata-events'):
+            return '%s:%s:%s' % (pid, self.direction, name)
         if cls in SELF_DESCRIBING:
             return '%s:%s:%s' % (pid, self.direction, cls)
         return '%s:%s:%s%s' % (pid, self.direction, name, (':' + cls) if cls else '')
@@ -125,6 +127,10 @@ def lockstep(ops, obs, forced, upto=None, pid=PID, collect=None):
         try:
             rop = op.resolve(m)
         except KeyError as ke:
+            if forced:
+                # after a re-synchronised deviation the handle bookkeeping of the script (written for the W3C path) may no longer fit
+                run.stopped = 'diverged-after-deviation:' + sorted(forced.values())[0]
+                return run
             raise Harness('script uses dead handle %s at op %d (%s)' % (ke, i, op.render()))
         m.quirk = {forced[i]} if i in forced else set()
         try:
@@ -161,7 +167,13 @@ def lockstep(ops, obs, forced, upto=None, pid=PID, collect=None):
             run.mismatch = Mismatch(i, op, exp, d, {'expected': sorted(map(str, exp.codes)) if exp.codes else 'ok', 'observed': o.outcome})
             return run
         if o.inv not in ('ok', '-'):
-            run.mismatch = Mismatch(i, op, exp, 'invariant:' + o.inv[5:].split('@')[0], {'inv': o.inv})
+            # name the kind of node the invariant failed on (type + how it came into being): narrow key
+            who = o.inv.split('@')[-1]
+            desc = ''
+            if who.startswith('n') and who[1:].isdigit() and int(who[1:]) in m.H:
+                x = m.H[int(who[1:])]
+                desc = ':%s-%s' % (x.origin, domref.TYPE_NAMES[x.t])
+            run.mismatch = Mismatch(i, op, exp, 'invariant:' + o.inv[5:].split('@')[0] + desc, {'inv': o.inv})
             return run
         if o.outcome == 'ok' and exp.res is not None and exp.codes is None:
             okres = (o.res in exp.res) if isinstance(exp.res, (set, frozenset)) else (o.res == exp.res)
@@ -354,9 +366,7 @@ def _rebuild(ops_nokill):
             exp = m.apply(op.resolve(m))
         except (KeyError, Undecided, IndexError, AttributeError, ValueError):
             return None
-        out.append(op)
-        if exp.kills:
-            out.append(ScriptOp('kill', None, sorted(set(exp.kills))))
+        out.append(ScriptOp(op.name, op.want, op.args, sorted(set(exp.kills))))
         if exp.dontcare:
             break
     return out
@@ -472,9 +482,13 @@ def run(tier):
             elif key == 'hang':
                 ck.violation('%s:hang:%s' % (PID, c.meta.get('class', '')), 'script did not terminate within the watchdog', {'case': cj})
             else:
-                ops = [o for o in case_ops(c)]
+                # memory errors: the sanitizer's error kind depends on where the stray access lands; key on the function
+                parts = key.split(':')
+                if parts[0] in ('asan', 'signal') and len(parts) >= 3:
+                    key = '%s:memory-error:%s' % (PID, ':'.join(parts[2:]))
+                else:
+                    key = '%s:%s' % (PID, key)
                 ck.violation(key, 'sanitizer/crash report while executing a DOM script', {'case': cj, 'report': text, 'last_lines': tail})
-                first_witness.setdefault(key, cj)
         for key, what, w in r['violations']:
             ck.violation(key, what, w)
             first_witness.setdefault(key, w['case'])
